@@ -245,7 +245,17 @@ func init() {
 				}
 				for _, mode := range []string{"emacs", "vi-insert", "vi-command"} {
 					for _, n := range ns {
-						jobs = append(jobs, stepJob(mode, cmd, n, "", "", false, false))
+						j := stepJob(mode, cmd, n, "", "", false, false)
+						if n >= 2 {
+							// two-character buffers over 7-bit characters (the Unicode class tables
+							// of two symbolic runes would take the whole time budget)
+							j.Params["alpha"] = "ascii"
+							j.Name = strings.Replace(j.Name, "{", "{alpha=ascii,", 1)
+							if strings.HasPrefix(cmd, "keyword-") {
+								continue // case-folding regexp on symbolic text: not modelled
+							}
+						}
+						jobs = append(jobs, j)
 					}
 					if tier == "thorough" {
 						jobs = append(jobs, stepJob(mode, cmd, 1, "2", "", false, false))
@@ -306,7 +316,7 @@ func init() {
 		Assumptions: stepAssumptions,
 		Stubs:       []string{"tty ioctls", "stdin = zzverif.Script", "stdout discarded"},
 		Bounds: map[string]string{"quick": "every registered command x {emacs, vi-insert, vi-command}, buffer length n <= 1, one symbolic argument key for key-reading commands",
-			"thorough": "buffer length n <= 2; numeric argument 2 on buffers of length 1; two symbolic key bytes after the prefixes none, ESC, C-x, d; faults after every prefix; undo/redo sequences of 5 steps"},
+			"thorough": "buffer length n <= 2 (length 2 over 7-bit characters; keyword-increase/decrease up to length 1: their case-folding regexp is not modelled on symbolic text); numeric argument 2 on buffers of length 1; two symbolic key bytes after the prefixes none, ESC, C-x, d; faults after every prefix; undo/redo sequences of 5 steps"},
 		Rule: "one state per completed symbolic path of the step harness",
 	}
 }
